@@ -19,6 +19,7 @@ from pathlib import Path
 
 import numpy as np
 
+from harness import c17_csv
 from harness.common import Failure, HarnessError, cbool, clist, cnat, copt, cstr, cz, exn_name
 
 PROP = "C17"
@@ -29,7 +30,12 @@ RULE = ("bounded-exhaustive: every shape (N, d1..dm), N in 0..3, m in 0..3, d in
         "integer/float/bool/str dtype with values at the dtype limits and 2^53+-1, rank 1..4 with singleton axes, random masks, "
         "zarr format 2 and 3); boundary stream: colliding column names (id/source/target/p_0), odd names and strings, single-row "
         "graphs, zero-size axes; CSV: file-name suffix variants, pre-existing files; non-trivial = at least one property; distinct "
-        "by structural input")
+        "by structural input; fx2011 CSV text layer: 55 hand-made distinguishing graphs (2^53+1 / -2^63 / uint64 2^63 beside a missing "
+        "entry, strings 007 NA '' 1e3 True inf None ..., comma/quote/LF/CR/CR+LF/NUL strings, bool with missing, float32 0.1, float16, "
+        "0.30000000000000004, uint64 ids beyond 2^63, a 12-wide 2-D property, all-missing columns, empty graph) + random typed graphs "
+        "(160 quick / 2500 thorough) exported with the real geff_to_csv below a dotted directory: file bytes and default pd.read_csv frames "
+        "compared in Coq; pd.read_csv on raw texts (character soup under a header, one-column files of tricky cells: 400 / 6000); NA-token "
+        "constant")
 EXHAUSTIVE_BLOCKS = [
     "geff_to_dataframes: all shapes (N,d1..dm) with N<=3, m<=3, d in {1,2,3} (plus (0,),(2,0),(0,2),(1,0) trailing) x mask in "
     "{none, all-false, first, last}, node side (int64) and edge side (E = 0,2,3,1 rows; dtype rotating)",
@@ -40,11 +46,17 @@ EXHAUSTIVE_BLOCKS = [
 ASSUMPTIONS = [
     "stored graphs are produced with geff.core_io.write_arrays (MemoryStore, or a directory store for the CLI); the model starts "
     "from the in-memory arrays; property order = zarr group listing order (read independently with zarr)",
-    "pandas (Series/DataFrame construction, Series.mask, nullable dtypes, to_csv quoting, read_csv) is runtime: modelled by its "
-    "meaning and tied by the correspondence only; CSV cells are compared after parsing the text back with the column's dtype "
-    "(ints exactly, floats by value, strings verbatim)",
-    "an empty string and a NaN float stored as a present value are indistinguishable from a missing cell in CSV/pandas: generators "
-    "do not emit them in compared positions",
+    "pandas (Series/DataFrame construction, Series.mask, nullable dtypes) is runtime: modelled by its meaning and tied by the "
+    "correspondence only; the old csv cases also compare the cells after parsing the text back with the column's dtype (the text is "
+    "lossless); fx2011: DataFrame.to_csv / csv.writer and pandas.read_csv with default arguments (tokenizer, header, type inference) are "
+    "MODELLED (Csv.v) and tied byte for byte / frame for frame; numpy float printing and pandas' float parser are value functions "
+    "outside the model (a float cell is its literal; the parser is sampled per text)",
+    "the oracle reads both files back with plain pandas.read_csv(path): the row labels appear as the column 'Unnamed: 0' and are ignored; "
+    "'same value' = equal integers (an integer may come back as the float of the same value), equal floats (float32/float16 at the stored "
+    "precision), identical strings, bools as bools, NaN where flagged missing; a stored NaN is a missing cell",
+    "an empty string and a NaN float stored as a present value are indistinguishable from a missing cell in CSV/pandas: the frames and "
+    "old csv generators do not emit them in compared positions; the csvtext cases do (a stored NaN counts as a missing cell, the empty "
+    "string is part of the open finding csv-default-read-string-na-or-numeric)",
     "variable-length properties are outside the property's quantifier (numeric and string dtypes) and are not generated",
     "readings fixed in DESIGN.md 6/C17: an (N,1) column may be called name or name_0; a rank>=3 property whose non-singleton "
     "trailing axes number at most one may be exported like its squeezed shape or left out with a warning",
@@ -280,6 +292,8 @@ def _generate(rng: random.Random, tier: str):
                   "overwrite": via == "api" and rng.random() < 0.5, "via": via,
                   "suffix": rng.choice([".csv", ".csv", "", ".tar.gz", ".v1.csv", ".txt"]), "block": "csv-random"})
         yield g
+    # fx2011: the CSV text layer and pandas.read_csv with default arguments (harness/c17_csv.py)
+    yield from c17_csv.generate(rng, tier, int_pool, FLOAT_POOL)
 
 
 # ---------------------------------------------------------------- implementation
@@ -373,12 +387,19 @@ def parse_csv(path):
         if col in typed.columns:
             ids[col] = [cell_py(v) for v in typed[col].tolist()]
     out["typed_ids"] = ids
+    out["default"] = c17_csv.read_default(path)       # fx2011: the whole table as default read_csv shows it
     return out
 
 
 def run_one(c):
     from zarr.storage import MemoryStore
 
+    if c["kind"] == "csvtext":
+        return c17_csv.run_csvtext(c, write_store, listing_order)
+    if c["kind"] == "read":
+        return c17_csv.run_read(c)
+    if c["kind"] == "consts":
+        return c17_csv.run_consts()
     if c["kind"] == "frames":
         store = MemoryStore()
         write_store(c, store)
@@ -658,6 +679,8 @@ def names_ok(c):
 
 
 def coq_case(c, o):
+    if c["kind"] in ("csvtext", "read", "consts"):
+        return c17_csv.coq_case(c, o)
     if not names_ok(c):
         return None
     g = coq_graph(c, o["order"])
@@ -830,6 +853,10 @@ def check_table(c, key, idcols, rows, columns, warned, what, from_text=False):
 
 def oracle(c, o):
     tags = {"kind": c["kind"]}
+    if c["kind"] in ("read", "consts"):
+        return None                                   # reader model / constants: correspondence only
+    if c["kind"] == "csvtext":
+        return c17_csv.oracle_csvtext(c, o, alternatives)
     idn = [("id", c["ids"])]
     ide = [("source", [e[0] for e in c["edges"]]), ("target", [e[1] for e in c["edges"]])]
     if c["kind"] == "frames":
@@ -874,20 +901,27 @@ def oracle(c, o):
             if f["typed_ids"].get(name) != ids:
                 return Failure(c, o, f"{k} csv: pandas.read_csv gives {name}={f['typed_ids'].get(name)}, stored {ids}",
                                {**tags, "why": "csv-ids"})
-    return None
+    # fx2011: the observation point of the property is pandas.read_csv with default arguments
+    return c17_csv.default_failure(c, o, tags, alternatives)
 
 
 # ---------------------------------------------------------------- evidence helpers
 def nontrivial(c, o):
+    if c["kind"] in ("read", "consts"):
+        return c["kind"] == "read"
     return bool(c["nprops"] or c["eprops"])
 
 
 def describe(c, o):
+    if c["kind"] in ("read", "consts"):
+        return f"{c['kind']}:{c.get('block')}"
     props = c["nprops"] + c["eprops"]
     maxrank = max([len(p["shape"]) for p in props], default=0)
     masked = any(p["missing"] and any(p["missing"]) for p in props)
     n = len(c["ids"])
     base = f"{c['kind']}:{c.get('block')}:n={n if n < 2 else '2+'}:maxrank={maxrank}:mask={'y' if masked else 'n'}:zarr{c['zf']}"
+    if c["kind"] == "csvtext":
+        base = f"csvtext:{c.get('block')}:n={n if n < 2 else '2+'}:mask={'y' if masked else 'n'}"
     if c["kind"] == "csv":
         base = (f"csv:{c.get('block')}:pre={int(c['pre_nodes'])}{int(c['pre_edges'])}:ov={int(c['overwrite'])}:{c['via']}:"
                 f"{o['res'] if o['res'] == 'ok' else o.get('exc')}")
@@ -903,7 +937,7 @@ def shrink(c):
             return False
 
     cur = c
-    changed = True
+    changed = "nprops" in c
     while changed:
         changed = False
         for key in ("nprops", "eprops"):
@@ -919,7 +953,7 @@ def shrink(c):
 
 def load_case(c):
     """Replay files spell non-finite floats as text."""
-    for p in c["nprops"] + c["eprops"]:
+    for p in c.get("nprops", []) + c.get("eprops", []):
         if p["dtype"].startswith("float"):
             p["values"] = [float(v) for v in p["values"]]
     return c
